@@ -1,0 +1,122 @@
+//go:build verif
+
+package parser
+
+// Contracts for the deductive verifier in /verif (govc).  This file contains comments only;
+// it is compiled only with -tags verif and declares nothing.
+
+//@ global reNotation: reNotation != nil && reSrc(reNotation) == "^\\s*//\\s*:(\\S+)\\s*(.*)$"
+//@ global reConvergen: reConvergen != nil && reSrc(reConvergen) == "^\\s*//\\s*:convergen\\b"
+//@ global reLiteral: reLiteral != nil && reSrc(reLiteral) == "^\\s*\\S+\\s+(.*)$"
+//@ global reGoBuildGen: reGoBuildGen != nil
+//@ global errAbort: errAbort != nil
+
+// ---- notation lines (C09, C06, C14, C03) -----------------------------------------------------------------
+
+//@ spec reNotationSrc() string = "^\\s*//\\s*:(\\S+)\\s*(.*)$"
+//@ spec isNotation(c *ast.Comment) bool = re2Search(reNotationSrc(), c.Text)
+//@ spec noteKey(c *ast.Comment) string = submatch(reNotationSrc(), c.Text, 1)
+//@ spec noteArgs(c *ast.Comment) string = submatch(reNotationSrc(), c.Text, 2)
+//@ spec noteArg(c *ast.Comment, i int) string = fieldAt(noteArgs(c), i)
+//@ spec noteNArgs(c *ast.Comment) int = nfields(noteArgs(c))
+//@ spec keyIs(c *ast.Comment, valid map[string]struct{}, k string) bool = has(valid, noteKey(c)) && noteKey(c) == k
+//@ spec wfNotes(ns []*ast.Comment) bool = forall(i, 0, len(ns), ns[i] != nil && isNotation(ns[i]))
+//@
+//@ spec toggleAfter(init bool, ns []*ast.Comment, valid map[string]struct{}, k int, on string, off string) bool =
+//@     cond(k <= 0, init,
+//@     cond(keyIs(ns[k-1], valid, on), true,
+//@     cond(keyIs(ns[k-1], valid, off), false, toggleAfter(init, ns, valid, k-1, on, off))))
+//@ spec styleAfter(init gmodel.DstVarStyle, ns []*ast.Comment, valid map[string]struct{}, k int) gmodel.DstVarStyle =
+//@     cond(k <= 0, init,
+//@     cond(keyIs(ns[k-1], valid, "style"), gmodel.DstVarStyle(noteArg(ns[k-1], 0)), styleAfter(init, ns, valid, k-1)))
+//@ spec ruleAfter(init gmodel.MatchRule, ns []*ast.Comment, valid map[string]struct{}, k int) gmodel.MatchRule =
+//@     cond(k <= 0, init,
+//@     cond(keyIs(ns[k-1], valid, "match"), gmodel.MatchRule(noteArg(ns[k-1], 0)), ruleAfter(init, ns, valid, k-1)))
+//@ spec posText(fs *token.FileSet, pos token.Pos) string = fmt_v(box(positionOf(fs, pos)))
+//@
+//@ spec tight(o option.Options) bool =
+//@     cap(o.SkipFields) == len(o.SkipFields) && cap(o.NameMapper) == len(o.NameMapper) &&
+//@     cap(o.TemplatedNameMapper) == len(o.TemplatedNameMapper) && cap(o.Converters) == len(o.Converters) &&
+//@     cap(o.Literals) == len(o.Literals)
+//@
+//@ func (*Parser).parseNotationInComments(p, notations, validOps, opts) (err)
+//@   requires wfParser(p) && wfNotes(notations) && option.skipInv(*opts) && tight(*opts)
+//@   effects log, stdout
+//@   assigns *opts
+//@   ensures {C09,C14} option.skipInv(*opts)
+//@   ensures {C09} err == nil ==> opts.ExactCase == toggleAfter(old(opts.ExactCase), notations, validOps, len(notations), "case", "case:off")
+//@   ensures {C09} err == nil ==> opts.Getter == toggleAfter(old(opts.Getter), notations, validOps, len(notations), "getter", "getter:off")
+//@   ensures {C09} err == nil ==> opts.Stringer == toggleAfter(old(opts.Stringer), notations, validOps, len(notations), "stringer", "stringer:off")
+//@   ensures {C09} err == nil ==> opts.Typecast == toggleAfter(old(opts.Typecast), notations, validOps, len(notations), "typecast", "typecast:off")
+//@   ensures {C09,C08} err == nil ==> opts.Style == styleAfter(old(opts.Style), notations, validOps, len(notations))
+//@   ensures {C09,C04} err == nil ==> opts.Rule == ruleAfter(old(opts.Rule), notations, validOps, len(notations))
+//@   ensures {C08,C03} err == nil ==> !(opts.Reverse && opts.Style == gmodel.DstVarReturn)
+//@   ensures {C09} sameOld(opts.SkipFields)
+//@   ensures {C09} opts.SkipFields == old(opts.SkipFields) || fresh(opts.SkipFields)
+//@   ensures {C09} opts.NameMapper == old(opts.NameMapper) || fresh(opts.NameMapper)
+//@   ensures {C09} opts.TemplatedNameMapper == old(opts.TemplatedNameMapper) || fresh(opts.TemplatedNameMapper)
+//@   ensures {C09} opts.Converters == old(opts.Converters) || fresh(opts.Converters)
+//@   ensures {C09} opts.Literals == old(opts.Literals) || fresh(opts.Literals)
+//@   ensures {C09} !has(validOps, "skip") ==> opts.SkipFields == old(opts.SkipFields)
+//@   ensures {C09} !has(validOps, "map") ==> opts.NameMapper == old(opts.NameMapper) && opts.TemplatedNameMapper == old(opts.TemplatedNameMapper)
+//@   ensures {C09} !has(validOps, "conv") ==> opts.Converters == old(opts.Converters)
+//@   ensures {C09} !has(validOps, "literal") ==> opts.Literals == old(opts.Literals)
+//@   ensures {C09} !has(validOps, "preprocess") ==> opts.PreProcess == old(opts.PreProcess)
+//@   ensures {C09} !has(validOps, "postprocess") ==> opts.PostProcess == old(opts.PostProcess)
+//@   ensures {C09} !has(validOps, "recv") ==> opts.Receiver == old(opts.Receiver)
+//@   ensures {C09} !has(validOps, "reverse") ==> opts.Reverse == old(opts.Reverse)
+//@   loop 1 invariant $k <= len(notations) && option.skipInv(*opts) && sameOld(opts.SkipFields)
+//@   loop 1 invariant sameOld(opts.NameMapper) && sameOld(opts.Converters) && sameOld(opts.Literals)
+//@   loop 1 invariant opts.ExactCase == toggleAfter(old(opts.ExactCase), notations, validOps, $k, "case", "case:off")
+//@   loop 1 invariant opts.Getter == toggleAfter(old(opts.Getter), notations, validOps, $k, "getter", "getter:off")
+//@   loop 1 invariant opts.Stringer == toggleAfter(old(opts.Stringer), notations, validOps, $k, "stringer", "stringer:off")
+//@   loop 1 invariant opts.Typecast == toggleAfter(old(opts.Typecast), notations, validOps, $k, "typecast", "typecast:off")
+//@   loop 1 invariant opts.Style == styleAfter(old(opts.Style), notations, validOps, $k)
+//@   loop 1 invariant opts.Rule == ruleAfter(old(opts.Rule), notations, validOps, $k)
+//@   loop 1 invariant opts.SkipFields == old(opts.SkipFields) || fresh(opts.SkipFields)
+//@   loop 1 invariant opts.NameMapper == old(opts.NameMapper) || fresh(opts.NameMapper)
+//@   loop 1 invariant opts.TemplatedNameMapper == old(opts.TemplatedNameMapper) || fresh(opts.TemplatedNameMapper)
+//@   loop 1 invariant opts.Converters == old(opts.Converters) || fresh(opts.Converters)
+//@   loop 1 invariant opts.Literals == old(opts.Literals) || fresh(opts.Literals)
+//@   loop 1 invariant !has(validOps, "skip") ==> opts.SkipFields == old(opts.SkipFields)
+//@   loop 1 invariant !has(validOps, "map") ==> opts.NameMapper == old(opts.NameMapper) && opts.TemplatedNameMapper == old(opts.TemplatedNameMapper)
+//@   loop 1 invariant !has(validOps, "conv") ==> opts.Converters == old(opts.Converters)
+//@   loop 1 invariant !has(validOps, "literal") ==> opts.Literals == old(opts.Literals)
+//@   loop 1 invariant !has(validOps, "preprocess") ==> opts.PreProcess == old(opts.PreProcess)
+//@   loop 1 invariant !has(validOps, "postprocess") ==> opts.PostProcess == old(opts.PostProcess)
+//@   loop 1 invariant !has(validOps, "recv") ==> opts.Receiver == old(opts.Receiver)
+//@   loop 1 invariant !has(validOps, "reverse") ==> opts.Reverse == old(opts.Reverse)
+
+// ---- looking up user functions (C14, C10, C06) ---------------------------------------------------------------------
+
+//@ spec objSig(o types.Object) *types.Signature = as(objType(o), *types.Signature)
+//@ spec paramType(sig *types.Signature, i int) types.Type = typeOfObj(tupleAt(sigParams(sig), i))
+//@ spec resType(sig *types.Signature, i int) types.Type = typeOfObj(tupleAt(sigResults(sig), i))
+//@ spec nPar(sig *types.Signature) int = tupleLen(sigParams(sig))
+//@ spec nRes(sig *types.Signature) int = tupleLen(sigResults(sig))
+//@ spec wfParser(p *Parser) bool = p.fset != nil && p.pkg != nil && p.pkg.Types != nil
+//@
+//@ func (*Parser).lookupType(p, typeName, pos) (sc, obj)
+//@   requires wfParser(p)
+//@
+//@ func (*Parser).lookupConverterFunc(p, funcName, pos) (argType, retType, retError, err)
+//@   requires wfParser(p)
+//@   effects log
+//@   ensures {C14,C06} err == nil ==> argType != nil && retType != nil
+//@   ensures {C14,C03} err != nil ==> hasPrefix(errmsg(err), posText(p.fset, pos) + ": ")
+//@
+//@ func (*Parser).lookupManipulatorFunc(p, funcName, optName, pos) (m, err)
+//@   requires wfParser(p)
+//@   effects log
+//@   ensures {C14,C10} err != nil ==> m == nil && hasPrefix(errmsg(err), posText(p.fset, pos) + ": ")
+//@   ensures {C14,C10} err == nil ==> m != nil && fresh(m) && m.Func != nil && m.DstSide != nil && m.SrcSide != nil && m.Pos == pos
+//@   ensures {C10} err == nil ==> is(objType(m.Func), *types.Signature) && nPar(objSig(m.Func)) >= 2 && nRes(objSig(m.Func)) <= 1
+//@   ensures {C10} err == nil ==> m.DstSide == paramType(objSig(m.Func), 0) && m.SrcSide == paramType(objSig(m.Func), 1)
+//@   ensures {C10} err == nil ==> len(m.AdditionalArgs) == nPar(objSig(m.Func)) - 2
+//@   ensures {C10,C14} err == nil ==> forall(j, 0, len(m.AdditionalArgs), m.AdditionalArgs[j] == paramType(objSig(m.Func), j+2) && m.AdditionalArgs[j] != nil)
+//@   ensures {C10,C07} err == nil ==> m.RetError == (nRes(objSig(m.Func)) == 1) && (m.RetError ==> isErrorT(resType(objSig(m.Func), 0)))
+//@   loop 1 invariant 0 <= i && i <= nPar(sig) - 2 && len(additionalArgs) == nPar(sig) - 2 && fresh(additionalArgs)
+//@   loop 1 invariant forall(j, 0, i, additionalArgs[j] == paramType(sig, j+2) && additionalArgs[j] != nil)
+//@
+//@ func isValidIdentifier(id) (r)
+//@   ensures {C08} r ==> id != ""
